@@ -163,7 +163,7 @@ def gen_stress(ctx, k):
     rng = ctx.sub_rng('c11s', k)
     cfg = cfggen.gen_config(rng, nboards=rng.randrange(1, 4), with_initial=False)
     if not cfg['trains']:
-        cfg['trains'].append({'id': 'xt', 'addr': (0x3D, 0x11), 'steps': 28, 'calibration': None, 'peripherals': [{'id': 'xf0', 'bit': 0, 'initial': None}, {'id': 'xf1', 'bit': 1, 'initial': None}]})
+        cfg['trains'].append({'id': 'xt', 'addr': cfggen.free_dcc(cfg, (0x3D, 0x11)), 'steps': 28, 'calibration': None, 'peripherals': [{'id': 'xf0', 'bit': 0, 'initial': None}, {'id': 'xf1', 'bit': 1, 'initial': None}]})
     nodes = cfggen.assign_tree(rng, cfg, absent_prob=0.0)
     m = statemodel.Model(cfg, nodes)
     d = cfggen.write_config(cfg, cfg_dir(f'c11s_{k}'))
